@@ -15,7 +15,7 @@ RULE = ("per generated continuum (2..5 annotators, partial tuples, labelled): be
         "combined dissimilarities (alpha in {0,.5,1,3}, delta_empty in {.25,.5,1,2}, categorical component abs/lev/ord/num/pre) x category in "
         "{None, each label present, an absent label}: gamma_k_disorder vs gk_loop within 2^-15; each alignment again under a second dissimilarity, and the "
         "random partition once more after a unit was moved between two of its unitary alignments through the n_tuple setter; plus gamma_cat / gamma_k of compute_gamma "
-        "results (3..5 samples) recomputed by the model from the stored alignments; TypeError for non-combined dissimilarities; "
+        "results (3..13 samples) recomputed by the model from the stored alignments; TypeError for non-combined dissimilarities; "
         "non-trivial = at least one considered real-real pair and one unit/empty pair; distinct by (alignment, dissimilarity, category)")
 TRUSTED_BASE = ["Coq 8.16.1 kernel", "extraction (ExtrOcamlBasic only), ocaml/driver.ml", "harness/{common,gen,alignchk,c12}.py",
                 "positional_dissim.d / categorical_dissim.d values are inputs of the model (their formulas: C04)"]
@@ -175,7 +175,7 @@ def run(rep, tier, seed, pa):
         dissim = gen.make_dissim(pa, case["spec"])
         np.random.seed(rng.randrange(10 ** 6))
         try:
-            res = cont.compute_gamma(dissim, n_samples=rng.choice([3, 4, 5]), sampler=pa.ShuffleContinuumSampler())
+            res = cont.compute_gamma(dissim, n_samples=rng.choice([3, 4, 5, 11, 13]), sampler=pa.ShuffleContinuumSampler())     # also counts that are not a multiple of a round batch size
         except Exception as e:
             rep.count("compute_gamma_raised:" + type(e).__name__)
             continue
